@@ -520,6 +520,8 @@ class Gen:
         text = re.sub(r"\bpub\s*\(\s*(crate|super)\s*\)", "pub", text)  # R7: visibility widened, no semantics
         if kind == "struct":
             text = widen_fields(text)
+        if not re.match(r"\s*pub\b", text):
+            text = "pub " + text
         if extra:
             self.emit(extra)
         a, b = self.emit(text)
